@@ -309,6 +309,12 @@ func layerVectors() (sig, detail string, n int) {
 			if i%7 == 0 {
 				s += "<&>"
 			}
+			if i%5 == 3 {
+				// long keys: 100-500 bytes
+				for len(s) < 100+i {
+					s += "/segment-" + fmt.Sprint(len(s))
+				}
+			}
 			for _, k := range []interface{}{s, []byte(s), SKey{A: i, B: s}} {
 				n++
 				got, err := layer(k, bf)
